@@ -253,6 +253,32 @@ theorem engUnary_reuse_alias_witness :
       cell out.st 0 0 = some (.app1 "g" (.src 0 0)) ∧ cell out.st 0 5 = some (.app1 "g" (.src 0 7)) :=
   ⟨_, rfl, rfl, rfl, rfl, rfl⟩
 
+/-- **`WithReuse(r)` on the iterator path** (operand or destination is a view with gaps / carries a pending transpose; the
+    two live in different buffers): at every position `k` of the logical order the destination's cell receives `g` of
+    the operand's element at `k` - by coordinate, whatever the two layouts; `r` is returned; nothing outside `r`'s buffer
+    changes (the operand in particular). -/
+theorem engUnary_reuse_iter (st : St) (g : UnF) (tc kt : List String) (strict : Bool) (a r : Dense)
+    (htc : a.dt ∈ tc) (hk : a.dt ∈ kt)
+    (hr : ReuseFits r a.shape a.dt a.ap.o.col)
+    (hu : (a.requiresIterator || (r.requiresIterator || !sameOrd r a)) = true)
+    (hma : a.mask = none) (hmr : r.mask = none) (hne : r.win.buf ≠ a.win.buf)
+    (hcr : r.win.len ≤ r.win.cap) (hca : a.win.len ≤ a.win.cap)
+    (hor : ∀ i ∈ r.offsets, 0 ≤ i ∧ i < (r.win.len : Int)) (hoa : ∀ j ∈ a.offsets, 0 ≤ j ∧ j < (a.win.len : Int))
+    (hnd : r.offsets.Nodup)
+    (hA : InBuf st a.win.buf a.win.off a.win.len) (hR : InBuf st r.win.buf r.win.off r.win.len) :
+    ∃ out, engUnary st g tc kt strict a { reuse := some r } = .ok out ∧ out.ret = .reuse ∧ out.reuse = some r ∧
+      out.st.mheap = st.mheap ∧
+      (∀ (k : Nat) m j, r.offsets[k]? = some m → a.offsets[k]? = some j →
+        ∃ x, cell st a.win.buf (a.win.off + j.toNat) = some x ∧
+          cell out.st r.win.buf (r.win.off + m.toNat) = some (g x)) ∧
+      (∀ b' k', b' ≠ r.win.buf → cell out.st b' k' = cell st b' k') := by
+  obtain ⟨st', h, hm, hv, hfr⟩ := engUnary_reuse_iter' st g tc kt strict a r (by simpa using htc) (by simpa using hk) hr
+    hu hma hmr hne hcr hca hor hoa hnd hA hR
+  refine ⟨_, h, rfl, rfl, hm, ?_, hfr⟩
+  intro k m j hk' hj
+  have hj' := hoa j (List.mem_of_getElem? hj)
+  exact ⟨_, cell_some_cellD (hA.has.at hj'.1 hj'.2), hv k m j hk' hj⟩
+
 /-- **The destination aliases the operand through another access pattern - every shape** (finding F123, repaired). When the
     reuse tensor `r` shares memory with the operand `a` without addressing exactly its cells in its sequence (a shallow
     clone with a pending transpose, an overlapping window of one parent), the operand is read from a copy: at every
@@ -320,6 +346,11 @@ example := engUnary_unsafe_iter st6 g floatTypes floatTypes true tv (by decide) 
 example : ∃ out, engUnary st6 g floatTypes floatTypes true tv { unsafe_ := true } = .ok out ∧
     cell out.st 0 0 = some (.app1 "g" (.src 0 0)) ∧ cell out.st 0 1 = some (.src 0 1) ∧
     cell out.st 0 2 = some (.app1 "g" (.src 0 2)) ∧ cell out.st 0 5 = some (.src 0 5) := ⟨_, rfl, rfl, rfl, rfl, rfl⟩
+/-- `engUnary_reuse_iter`: the (1,3) view with gaps into a contiguous (1,3) destination -/
+def str6 : St := { heap := #[#[.src 0 0, .src 0 1, .src 0 2, .src 0 3, .src 0 4, .src 0 5], #[.src 1 0, .src 1 1, .src 1 2]] }
+def trv : Dense := { ap := { shape := [1, 3], strides := [3, 1] }, win := ⟨1, 0, 3, 3⟩, dt := "f64" }
+example := engUnary_reuse_iter str6 g floatTypes floatTypes true tv trv (by decide) (by decide) ⟨rfl, by decide, by decide, rfl⟩
+  (by decide) rfl rfl (by decide) (by decide) (by decide) (by decide) (by decide) (by decide) ⟨_, rfl, by decide⟩ ⟨_, rfl, by decide⟩
 example := engMap_incr_bool_refused st g ["b"] { ta with dt := "b" } { tr with dt := "b" } (by decide) rfl (by decide)
   (by decide) ⟨rfl, by decide, by decide, rfl⟩ rfl rfl (by decide) inA
 end Ex
